@@ -1886,7 +1886,8 @@ class Isometry(projective.Transformation, HyperbolicObject):
         """
 
         if like is None:
-            like = angle
+            # an integer-typed angle must not give an integer matrix
+            like = utils.array_like(angle)
 
         affine = utils.identity(
             dimension, like=like, **kwargs
